@@ -80,7 +80,7 @@ class C17(Check):
                         "single-CPU run of the same ext2fs_read_bitmaps call"]
 
     def budget(self, tier):
-        return {"runs": 900, "wall_s": 85} if tier == "quick" else {"runs": 40000, "wall_s": 1500}
+        return {"runs": 6000, "wall_s": 85} if tier == "quick" else {"runs": 40000, "wall_s": 1500}
 
     def generate(self, rng, tier):
         if rng.chance(0.22):
@@ -110,7 +110,8 @@ class C17(Check):
         model = bytearray(init)
         either = []          # (start, end, alternative bytes) ranges where old or new content is acceptable
         data = bytearray()
-        lines = ["data %s" % os.path.join(wd, "payload.bin"), "readout %s" % os.path.join(wd, "readout.bin")]
+        lines = ["data %s" % os.path.join(wd, "payload.bin"), "readout %s" % os.path.join(wd, "readout.bin"),
+                 "snap %s" % os.path.join(wd, "snap")]
         openline = "open dev.img rw"
         env = {}
         if spec["config"] == "cacheoff":
@@ -178,7 +179,8 @@ class C17(Check):
         faults = []
         if spec["fault"]:
             kind, nth, a = spec["fault"]
-            faults = [(kind, 0, nth, a if kind in ("short_w", "short_r") else 1, 0)]
+            # short transfers: a = bytes transferred; error kinds: a selects how long the condition lasts (a full disk stays full)
+            faults = [(kind, 0, nth, a if kind in ("short_w", "short_r") else {1024: 1000, 1000: 3}.get(a, 1), 0)]
         pl = Plan([dev], None, rand_seed=1, faults=faults, budget=100000)
         r = run_sim([tool("h_iochan"), script], pl, wd, tag="io", env=env, keep_log=True)
         o.trace = log_hash(r.events)
@@ -198,7 +200,7 @@ class C17(Check):
         for ln in out:
             m = re.match(r"^(\d+) (\w+)(?:\(final\))? ret=(-?\d+)(.*)$", ln)
             if m:
-                res.append((m.group(2), int(m.group(3)), m.group(4)))
+                res.append((m.group(2), int(m.group(3)), m.group(4), int(m.group(1))))
         werr_seen = any("WERR" in ln for ln in out)
         try:
             readout = open(os.path.join(wd, "readout.bin"), "rb").read()
@@ -209,6 +211,11 @@ class C17(Check):
             o.harness_error = "unexpected h_iochan output: %r" % out[:5]
             return
         res = res[1:]
+        if len(res) < len(planned) and res and res[-1][0] == "setbs" and res[-1][1] != 0:
+            # set_blksize flushes first; when an injected write fault makes that fail the block size stays what it was and the
+            # driver stops: the rest of the script was sized for the new block size
+            planned = planned[:len(res)]
+            o.stats["probe.setbs_failed_history_cut"] += 1
         if len(res) < len(planned):
             o.harness_error = "h_iochan produced %d results for %d operations: %r" % (len(res), len(planned), out[-3:])
             return
@@ -249,11 +256,11 @@ class C17(Check):
         for idx, p in enumerate(planned):
             if idx >= len(res):
                 break
-            kind, ret, tail = res[idx]
+            kind, ret, tail, lineno = res[idx]
             k = p[0]
             opkinds.append(k)
             o.evals += 1
-            if ret != 0 and k in ("w", "wb", "f", "c", "z", "d"):
+            if ret != 0 and k in ("w", "wb", "f", "c", "z", "d", "setbs"):      # (set_blksize flushes)
                 error_reported = True
             if k == "r":
                 _k, blk, cnt, bsz = p
@@ -330,8 +337,23 @@ class C17(Check):
                 elif ret != EXT2_ET_UNIMPLEMENTED:
                     mark_either(start, b"\0" * (cnt * bsz))
             elif k in ("f", "c"):
-                if ret == 0 and not (fired and injected_write_fault):
-                    pass
+                if k == "f" and ret == 0:
+                    # after a flush that reports success the backing file holds exactly what the channel accepted
+                    sp = os.path.join(wd, "snap.%d" % lineno)
+                    if os.path.exists(sp):
+                        snap = open(sp, "rb").read()
+                        lim = min(len(snap), len(model))
+                        o.stats["probe.flush_snapshots"] += 1
+                        # (as long as no operation has reported an error, "either old or new" is no excuse: every write the
+                        # channel accepted so far has to be there)
+                        strict = not error_reported and not werr_seen
+                        if (strict and snap[:lim] != bytes(model[:lim])) or not acceptable(0, snap[:lim]):
+                            first = next(i for i in range(lim) if snap[i] != model[i] and (strict or
+                                         not any(s_ <= i < e_ and snap[i] in (old_[i - s_], new_[i - s_]) for s_, e_, old_, new_ in either)))
+                            o.violate("iochan|%s|flush_not_durable%s" % (spec["config"], "" if not fired else "|fault:" + fk),
+                                      "op %d: flush returned 0 but the backing file differs from what the channel accepted at device offset %d "
+                                      "(block %d at 1 KiB); %s" % (idx, first, (first - choff) // 1024, where), skey="flush_not_durable", op=idx)
+                            return
         # ---- durability: after the final close the backing file holds the model
         final = open(dev, "rb").read()
         closes = [x for x in res if x[0] == "c"]
